@@ -77,8 +77,10 @@ def cross_process(h: Harness):
     # a grammar whose productions live in separate modules (imported in another order in some environments)
     for a, r in (("gp", "tree"), ("rs", "tree"), ("gp", "ge"), ("hc", "sge"), ("gp", "dsge"), ("rs", "stack")):
         configs.append([a, r, "split", 3, {"gp": 30}.get(a, 12)])
+    for a, r in (("gp", "stack"), ("rs", "stack"), ("gp", "tree"), ("gp", "dsge")):
+        configs.append([a, r, "floats", 5, {"gp": 30}.get(a, 12)])
     envs = [{"PYTHONHASHSEED": "0", "C08_PAD": "0", "C08_IMPORT_ORDER": "a"},
-            {"PYTHONHASHSEED": "1", "C08_PAD": "1000", "C08_IMPORT_ORDER": "b"},
+            {"PYTHONHASHSEED": "1", "C08_PAD": "1000", "C08_IMPORT_ORDER": "b", "C08_HOLES": "1"},
             {"PYTHONHASHSEED": "4242", "C08_PAD": "123457", "C08_IMPORT_ORDER": "a"}]
     if h.thorough:
         envs += [{"PYTHONHASHSEED": str(k), "C08_PAD": str(k * 7919 % 50000), "C08_IMPORT_ORDER": "ab"[k % 2]} for k in (2, 3, 5, 8, 13)]
@@ -93,7 +95,7 @@ def cross_process(h: Harness):
             continue
         ref = base[key]
         # one after the other in the same process (second and third run use a user-supplied tracker)
-        for again in ("#again", "#again2"):
+        for again in ("#again", "#again2", "#sharedrep1", "#sharedrep2"):
             other = base.get(key + again)
             if other is not None and other != ref:
                 h.fail(key.split("/")[1], "irreproducible-within-process",
